@@ -142,6 +142,42 @@ loops over `&mut [Limb]` slices) and `montgomery_reduction` (C08).  Extensions (
       may contain further such loops: `<fn>_loop<n> captured.. : Nat → Nat → state.. → Nat × state` by recursion on a fuel
       argument (called with BOUND - start), re-testing `j < BOUND` every round and returning the final counter in front of
       the state; state = the outer variables assigned in the body or in a loop nested in it (declaration order).
+Seventh unit group (round 4) (round 4, written to lean/CB/Gen/Shifts.lean, imports CB.Gen.Prim): the shift / bit-query layer of C05 —
+`impl Limb { shl, shl1, shr, shr1, bits, leading_zeros, trailing_zeros, trailing_ones, bitor, select }`
+(src/limb/{shl,shr,bits,bit_or,cmp}.rs; namespace CB.Gen.Shifts.Limb) and `impl<const LIMBS: usize> Uint<LIMBS> { select,
+overflowing_shl1, shl_limb, shr1, shr1_with_carry, overflowing_sh{l,r}_vartime, sh{l,r}_vartime, wrapping_sh{l,r}_vartime,
+overflowing_sh{l,r}, sh{l,r}, wrapping_sh{l,r} }` (src/uint/{cmp,shl,shr}.rs; namespace CB.Gen.Shifts.Uint), and the free
+functions `bit`, `leading_zeros`, `trailing_zeros`, `trailing_ones` over a limb slice of src/uint/bits.rs (namespace
+CB.Gen.Shifts.Bits; unit option `cut='\nimpl<'`: only the text in front of the first `impl` block).  Subset extensions:
+  a slice parameter `&[Limb]` is the list of its limbs, `limbs.len()` its length (a `Nat`); `i as u32` of a `Nat` counter is
+  `BitVec.ofNat 32 i`; an untyped `let x = 1 << n;` gets the one integer width with which the rest of the block translates;
+  a unit may name further units holding methods of `Limb` / `Uint` (`limb_more=[..]`, `uint_more=[..]`), searched first;
+  `Limb::HI_BIT` / `Self::HI_BIT` (63), `Self::BITS` inside `impl Limb` (64); inside a generic `impl Uint`: `Self::ZERO`
+  (`List.replicate LIMBS 0#64`) and `Self::BITS` (`BitVec.ofNat 32 (64 * LIMBS)`, the `u32` constant);
+  `x.wrapping_shl(s)` / `x.wrapping_shr(s)` (amount masked to the width), `x.trailing_zeros()` (`BitVec.ctz x`),
+  `x.trailing_ones()` (`BitVec.ctz (~~~x)`), `/` and `%` on words, `<<` / `>>` by a loop counter kept as a `Nat`
+  (amount modulo the width, like every non-constant amount);
+  `name.limbs[i] = e` (the same as `name[i] = e`), turbofish in paths (`Uint::<LIMBS>::new`), the last assignment of a block
+  without `;`, string literals (only as the message of `.expect("..")`);
+  `e as usize` of a word in a generic unit is its value as a `Nat` (`(e).toNat`): limb indices and counts are `Nat`s, and
+  `a - b` on them is the truncated `Nat` subtraction (Rust panics on underflow; never reached where the index is in range);
+  a `ConstCtOption<T>` (parameter, local or result) is the pair (value, is_some mask): `ConstCtOption::some(v)` = `(v, ~~~0)`,
+  `::none(v)` = `(v, 0)`, `::new(v, c)` = `(v, c)`; `o.unwrap_or(def)` on a `ConstCtOption<Uint>` is the
+  `Uint::select(&def, &o.value, o.is_some)` it is defined as; `o.expect("..")` is the VALUE `o.1` — the assertion it makes is
+  not part of the translation, it is a statement about the hand-written model (outer `Option`), discharged by the bridge
+  theorems `model = some (translated ..)`;
+  an early return `if cond { return e; }` (no `else`) at the top level of a function: `if cond then e else <the rest>`;
+  body-local `let mut` variables of a `while` body may be re-assigned (they are not loop state);
+  the limb count `LIMBS` is passed to every auxiliary loop definition of a generic unit translated by the two forms below and by
+  the fourth form above (it was captured there already: the bound mentions it);
+  the fourth `while` form also with a `usize` VARIABLE as start value (`let mut i = shift_num; while i < LIMBS { .. }`; fuel
+  `LIMBS - shift_num`), with a `Nat` bound expression (`LIMBS - shift_num`) and with a word bound (`while i < shift_bits`, both
+  `u32`: compared as `Nat`s, fuel `shift_bits.toNat`);
+  a fifth `while` form:
+    - `while i > 0 { i -= 1; ..; }` with a `usize` counter (`let mut i = LIMBS;`, or the counter left by a preceding
+      `while i < BOUND` loop, whose value is BOUND) becomes `<fn>_loop<j> captured.. : Nat → state.. → state` by structural
+      recursion on the counter itself: round `n + 1` runs the body with `i = n`; state / captured as in the fourth form
+      (untyped accumulators `let mut count = 0;` get their width the same way).
 """
 import os, re, sys, json
 
@@ -165,7 +201,7 @@ MUTP = {}
 
 # ------------------------------------------------------------------ tokenizer
 
-TOK = re.compile(r'\s*(?:(//[^\n]*)|(0x[0-9a-fA-F_]+|\d[\d_]*)(u8|u32|u64|u128|usize)?|([A-Za-z_][A-Za-z0-9_]*)|(<<=|>>=|::|->|<<|>>|==|!=|<=|>=|&&|\|\||\+=|-=|\*=|\|=|&=|\^=|[-+*/%&|^!<>=(){}\[\],;:.#]))')
+TOK = re.compile(r'\s*(?:(//[^\n]*)|(0x[0-9a-fA-F_]+|\d[\d_]*)(u8|u32|u64|u128|usize)?|([A-Za-z_][A-Za-z0-9_]*)|(<<=|>>=|::|->|<<|>>|==|!=|<=|>=|&&|\|\||\+=|-=|\*=|\|=|&=|\^=|[-+*/%&|^!<>=(){}\[\],;:.#])|("(?:[^"\\\\]|\\\\.)*"))')
 
 
 def tokenize(s):
@@ -183,6 +219,8 @@ def tokenize(s):
             out.append(('num', int(m.group(2).replace('_', ''), 0), m.group(3)))
         elif m.group(4):
             out.append(('id', m.group(4)))
+        elif m.group(6):
+            out.append(('str', m.group(6)))      # a string literal (the message of `.expect("..")`)
         else:
             out.append(('op', m.group(5)))
     return out
@@ -328,6 +366,8 @@ class P:
         tok = self.peek()
         if tok[0] == 'num':
             self.eat(); return ('lit', tok[1], tok[2])
+        if tok[0] == 'str':
+            self.eat(); return ('str', tok[1])
         if tok[0] == 'op' and tok[1] == '(':
             self.eat()
             save, self.nostruct = self.nostruct, False
@@ -358,7 +398,11 @@ class P:
         if tok[0] == 'id':
             path = [self.eat()[1]]
             while self.at('::'):
-                self.eat(); path.append(self.eat('id')[1])
+                self.eat()
+                if self.at('<'):
+                    self.skip_generic_args()       # turbofish `Uint::<LIMBS>::new`
+                    continue
+                path.append(self.eat('id')[1])
             if self.at('('):
                 return ('call', path, self.args())
             if self.at('{') and not self.nostruct and len(path) == 1 and path[0][0].isupper():
@@ -383,6 +427,62 @@ class P:
                 self.eat()
         self.eat('op', '}')
         return ('struct', name, fields)
+
+    def skip_generic_args(self):
+        """`<LIMBS>` / `<{ N }>` after `::` in a path: skipped (the limb count of the callee is the caller's)"""
+        self.eat('op', '<')
+        depth = 1
+        while depth:
+            tok = self.eat()
+            if tok[0] == 'eof':
+                raise Unsupported('unterminated generic arguments')
+            if tok == ('op', '<'):
+                depth += 1
+            elif tok == ('op', '>'):
+                depth -= 1
+            elif tok == ('op', '>>'):
+                depth -= 2
+
+    def field_indexed_assign(self, stmts):
+        """`name.limbs[idx] op= e;` (a `Uint` is the list of its limbs) -> ('assign_idx', name, idx, op, e)"""
+        save = self.i
+        name = self.eat()[1]
+        self.eat('op', '.')
+        self.eat('id', 'limbs')
+        self.eat('op', '[')
+        idx = self.expr()
+        self.eat('op', ']')
+        if not (self.peek()[0] == 'op' and self.peek()[1] in ASSIGN_OPS):
+            self.i = save
+            return False
+        op = self.eat()[1]
+        rhs = self.expr()
+        if not self.at('}'):
+            self.eat('op', ';')
+        stmts.append(('assign_idx', name, idx, op, rhs))
+        return True
+
+    def if_return(self, stmts):
+        """`if cond { return e; }` (an early return, no `else`) -> ('ifret', cond, e); anything else: position untouched"""
+        save = self.i
+        try:
+            self.eat('id', 'if')
+            self.nostruct = True
+            cond = self.expr()
+            self.nostruct = False
+            self.eat('op', '{')
+            self.eat('id', 'return')
+            e = self.expr()
+            if self.at(';'):
+                self.eat()
+            self.eat('op', '}')
+            if self.at('else'):
+                raise Unsupported('if .. else')
+        except Unsupported:
+            self.i, self.nostruct = save, False
+            return False
+        stmts.append(('ifret', cond, e))
+        return True
 
     # ---- statements
     def let_(self):
@@ -518,14 +618,19 @@ class P:
                 self.eat('op', '}')
                 stmts.append(('while', cond, body))
             elif tok == ('id', 'if'):
-                stmts.append(self.if_())
+                if not self.if_return(stmts):       # `if c { return e; }` (an early return) before the general `if` statement
+                    stmts.append(self.if_())
             elif tok[0] == 'id' and self.peek(1)[0] == 'op' and self.peek(1)[1] in ASSIGN_OPS:
                 name = self.eat()[1]
                 op = self.eat()[1]
                 rhs = self.expr()
-                self.eat('op', ';')
+                if not self.at('}'):               # `i += 1 }`: the last statement of a block may omit the `;`
+                    self.eat('op', ';')
                 stmts.append(('assign', name, op, rhs))
             elif tok[0] == 'id' and self.peek(1) == ('op', '[') and self.indexed_assign(stmts):
+                pass
+            elif (tok[0] == 'id' and self.peek(1) == ('op', '.') and self.peek(2) == ('id', 'limbs')
+                  and self.peek(3) == ('op', '[') and self.field_indexed_assign(stmts)):
                 pass
             elif tok[0] == 'id' and self.peek(1) in (('op', '['), ('op', '.')) and self.place_assign(stmts):
                 pass
@@ -805,6 +910,10 @@ def ty_of(t, self_ty):
         return 'uint'
     if OPTS.get('free_generic') and re.match(r'Odd\s*<\s*Uint\s*<\s*LIMBS\s*>\s*>$', t):
         return 'odduint'     # `Odd<Uint<LIMBS>>`: a newtype over the limb list, `.0` is the value
+    m = re.match(r'ConstCtOption\s*<\s*(.+?)\s*>$', t)
+    if m:
+        # a `ConstCtOption<T>` is the pair (value, is_some mask), as in CB/Model/Shift.lean
+        return (ty_of(m.group(1), self_ty), 'choice')
     raise Unsupported('type ' + t)
 
 
@@ -895,6 +1004,8 @@ class Gen:
             return 64
         if k == 'path' and len(e[1]) == 2 and e[1][1] == 'HI_BIT' and (e[1][0] == 'Limb' or (e[1][0] == 'Self' and self.self_ty == 'Limb')):
             return 63
+        if k == 'path' and e[1] == ['Self', 'BITS'] and self.self_ty == 'Limb':
+            return 64
         if k == 'bin' and e[1] in '+-*':
             a, b = self.const(e[2]), self.const(e[3])
             if a is None or b is None:
@@ -918,6 +1029,11 @@ class Gen:
         if where == 'choice' and self.self_ty != 'ConstChoice':
             c = self.ext.get('choice')
             return (c[0], c[1].get(name)) if c else (None, None)
+        if where in ('limb', 'uint') and self.self_ty != {'limb': 'Limb', 'uint': 'Uint'}[where]:
+            # further units holding methods of `Limb` / `Uint<LIMBS>` (listed by the unit under `limb_more` / `uint_more`)
+            for ns, sg in self.ext.get(where + '_more', []):
+                if name in sg:
+                    return ns, sg[name]
         if where in ('limb', 'uint'):
             # a method of `Limb` / `Uint<LIMBS>`: the unit itself when it is the impl of that type, else the unit holding it
             more = ([self.ext[where]] if self.ext.get(where) else []) + list(self.ext.get(where + '+') or [])
@@ -990,11 +1106,20 @@ class Gen:
                 return {'ZERO': '0#64', 'ONE': '1#64', 'MAX': '(~~~0#64)'}[p[1]], 'wrap:1'
             if len(p) == 2 and p[0] == 'Limb' and p[1] == 'BITS':
                 return '64#32', 32
-            if len(p) == 2 and p[1] == 'HI_BIT' and (p[0] == 'Limb' or (p[0] == 'Self' and self.self_ty == 'Limb')):
+            if len(p) == 2 and (p[0] == 'Limb' or (p[0] == 'Self' and self.self_ty == 'Limb')) and p[1] == 'HI_BIT':
                 return '63#32', 32
+            if len(p) == 2 and p[0] == 'Self' and self.self_ty == 'Limb' and p[1] == 'BITS':
+                return '64#32', 32
+            if (len(p) == 2 and p[0] in ('Self', 'Uint') and self.self_ty == 'Uint' and self.generic
+                    and env.get(self.generic, (None, None))[1] == 'nat'):
+                if p[1] == 'ZERO':
+                    return f'(List.replicate {env[self.generic][0]} 0#64)', 'uint'
+                if p[1] == 'BITS':
+                    # `Self::BITS: u32 = LIMBS * Limb::BITS` (a `u32`: wraps like the constant would)
+                    return f'(BitVec.ofNat 32 (64 * {env[self.generic][0]}))', 32
             if (len(p) == 2 and p[1] == 'ZERO' and self.generic and env.get(self.generic, (None, None))[1] == 'nat'
                     and (p[0] == 'Uint' or (p[0] == 'Self' and self.self_ty == 'Uint'))):
-                # `Uint::ZERO` (`from_u8(0)`): all limbs zero
+                # `Uint::ZERO` (`from_u8(0)`): all limbs zero (also from a free generic function, where there is no `Self`)
                 return f'(List.replicate {env[self.generic][0]} 0#64)', 'uint'
             raise Unsupported('path ' + '::'.join(p))
         if k == 'field':
@@ -1070,6 +1195,14 @@ class Gen:
         if k == 'neg':
             t, ty = self.ex(e[1], env, want)
             return f'(-{t})', ty
+        if k == 'as' and e[2] == 'usize' and self.generic and e[1][0] != 'lit' and not self.is_lit_var(e[1], env):
+            # a word used as a limb index / count (`(shift / Limb::BITS) as usize`): its value as a `Nat`
+            t, ty = self.ex(e[1], env)
+            if ty == 'nat':
+                return t, 'nat'
+            if not isinstance(ty, int) or ty > 64:
+                raise Unsupported('cast of ' + str(ty) + ' to usize')
+            return f'({t}).toNat', 'nat'
         if k == 'as':
             tgt = ty_of(e[2], self.self_ty)
             if not isinstance(tgt, int):
@@ -1081,6 +1214,8 @@ class Gen:
                 ty = 64
             if ty == tgt:
                 return t, tgt
+            if ty == 'nat':
+                return f'(BitVec.ofNat {tgt} {atom(t)})', tgt      # a `usize` counter used as a word (`i as u32`)
             if not isinstance(ty, int):
                 raise Unsupported('cast of ' + str(ty))
             if isinstance(ty, SInt) and tgt > ty:
@@ -1097,6 +1232,9 @@ class Gen:
                     if not isinstance(ty, int):
                         raise Unsupported('shift of ' + str(ty))
                     s, ts = self.ex(e[3], env)
+                    if ts == 'nat':
+                        # the amount is a loop counter kept as a `Nat` (`shift >> i`, `1 << i` with `i < shift_bits`)
+                        return f'({t} {lop} ({s} % {ty}))', ty
                     if not isinstance(ts, int) or ty >= 2 ** ts:
                         raise Unsupported('shift amount type')
                     if isinstance(ty, SInt) and op == '>>':
@@ -1127,6 +1265,13 @@ class Gen:
                 return f'({a} {op} {b})', 'nat'
             if op in ('==', '!=', '<', '>', '<=', '>=') and (self.is_nat(e[2], env) or self.is_nat(e[3], env)):
                 return f'(decide ({self.nat_cmp(e, env)}))', 'bool'
+            if want == 'nat' and op == '-':
+                # `i - shift_num`, `LIMBS - 1` on `usize`: truncated subtraction (Rust panics on underflow; never reached
+                # in the translated loops, where the index is in range)
+                a, ta = self.ex(e[2], env, 'nat'); b, tb = self.ex(e[3], env, 'nat')
+                if ta != 'nat' or tb != 'nat':
+                    raise Unsupported('index arithmetic')
+                return f'({a} - {b})', 'nat'
             a, ta = None, None
             # literals take the type of the other operand
             if (e[2][0] == 'lit' and not e[2][2]) or self.is_lit_var(e[2], env):
@@ -1161,7 +1306,7 @@ class Gen:
                 return f'(decide ({a} {lop} {b}))', 'bool'
             if op in ('&&', '||'):
                 return f'({a} {op} {b})', 'bool'
-            lop = {'&': '&&&', '|': '|||', '^': '^^^', '+': '+', '-': '-', '*': '*'}.get(op)
+            lop = {'&': '&&&', '|': '|||', '^': '^^^', '+': '+', '-': '-', '*': '*', '/': '/', '%': '%'}.get(op)
             if lop is None or ta == 'bool' or not isinstance(ta, int):
                 raise Unsupported('operator ' + op)
             return f'({a} {lop} {b})', ta
@@ -1190,8 +1335,30 @@ class Gen:
             if name == 'overflowing_add':
                 b, tb = self.ex(args[0], env, tr)
                 return f'(({r} + {b}), decide (({r} + {b}) < {r}))', (tr, 'bool')
-            if name == 'len' and tr == 'uint' and not args and OPTS.get('slices'):
+            if name == 'len' and tr == 'uint' and not args:
                 return f'{atom(r)}.length', 'nat'
+            if name == 'expect' and isinstance(tr, tuple) and len(tr) == 2 and tr[1] == 'choice' and len(args) == 1 and args[0][0] == 'str':
+                # `ConstCtOption::expect(msg)`: `assert!(is_some); value` — the translation is the VALUE; that the assertion
+                # holds is a statement about the hand-written model (outer `Option`), proved with the bridge
+                return f'({r}).1', tr[0]
+            if name == 'unwrap_or' and tr == ('uint', 'choice') and len(args) == 1:
+                # `ConstCtOption<Uint>::unwrap_or(def)` is `Uint::select(&def, &self.value, self.is_some)` (src/const_choice.rs)
+                ns, sig = self.lookup('select', 'uint')
+                if sig != (['uint', 'uint', 'choice'], 'uint') or not self.generic:
+                    raise Unsupported('unwrap_or without a translated Uint::select')
+                d, td = self.ex(args[0], env, 'uint')
+                if td != 'uint':
+                    raise Unsupported('unwrap_or default of type ' + str(td))
+                return f'({ns}.select {env[self.generic][0]} {atom(d)} ({r}).1 ({r}).2)', 'uint'
+            if name in ('wrapping_shr', 'wrapping_shl') and isinstance(tr, int) and len(args) == 1:
+                # the amount (a `u32`) is masked to the bit width
+                b, tb = self.ex(args[0], env, 32)
+                if tb != 32:
+                    raise Unsupported('wrapping shift amount type')
+                return f'({r} {">>>" if name == "wrapping_shr" else "<<<"} ({b} % {tr}#32))', tr
+            if name in ('trailing_zeros', 'trailing_ones') and isinstance(tr, int) and not args:
+                x = atom(r) if name == 'trailing_zeros' else f'(~~~{r})'
+                return (f'(BitVec.ctz {x})' if tr == 32 else f'((BitVec.ctz {x})).setWidth 32'), 32
             if name == 'leading_zeros' and isinstance(tr, int) and not args:
                 return (f'(BitVec.clz {atom(r)})' if tr == 32 else f'((BitVec.clz {atom(r)})).setWidth 32'), 32
             if tr == 'choice':
@@ -1223,6 +1390,19 @@ class Gen:
                 if ty != 'uint':
                     raise Unsupported('Uint::new of ' + str(ty))
                 return t, 'uint'
+            if len(p) == 2 and p[0] == 'ConstCtOption' and p[1] in ('some', 'none', 'new'):
+                # a `ConstCtOption<T>` is the pair (value, is_some mask)
+                if len(e[2]) != (2 if p[1] == 'new' else 1):
+                    raise Unsupported('ConstCtOption arity')
+                wv = want[0] if isinstance(want, tuple) and len(want) == 2 else None
+                v, tv = self.ex(e[2][0], env, wv)
+                if p[1] == 'new':
+                    c, tc = self.ex(e[2][1], env, 'choice')
+                    if tc != 'choice':
+                        raise Unsupported('ConstCtOption::new with a non-choice')
+                else:
+                    c = '(~~~0#64)' if p[1] == 'some' else '0#64'
+                return f'({v}, {c})', (tv, 'choice')
             if len(p) == 2 and p[0] == 'Limb' and self.self_ty != 'Limb':
                 return self.call(p[1], e[2], env, 'limb')
             if len(p) == 2 and p[0] == 'Uint' and self.self_ty != 'Uint':
@@ -1300,7 +1480,7 @@ class Gen:
 
     def run(self, stmts, env, lines, declared=None):
         """execute statements symbolically: appends lean `let` lines, updates env (rust name -> (lean text, type))"""
-        for st in stmts:
+        for pos, st in enumerate(stmts):
             k = st[0]
             if k == 'declare':
                 if declared is not None:
@@ -1355,6 +1535,9 @@ class Gen:
                     self.cenv[name] = e[1]
                     continue
                 want = ty_of(ann, self.self_ty) if ann else None
+                if ann is None and self.untyped(e, env):
+                    # `let index_mask = 1 << index_in_limb;`: the one integer width with which the rest of the block translates
+                    want = self.infer_let_width(name, e, stmts[pos + 1:], env, lines, declared)
                 t, ty = self.ex(e, env, want)
                 self.bind(name, t, ty, env, lines)
             elif k == 'lettuple':
@@ -1412,6 +1595,17 @@ class Gen:
                 self.do_if(st[1], st[2], st[3], env, lines)
             elif k == 'assign_tuple':
                 self.do_assign_tuple(st[1], st[2], env, lines)
+            elif k == 'ifret':
+                # `if cond { return e; }` at the top level of a function: `if cond then e else <the rest>`
+                if declared is not None or getattr(self, 'rty', None) is None:
+                    raise Unsupported('return inside a loop')
+                c, tc = self.ex(st[1], env)
+                if tc != 'bool':
+                    raise Unsupported('condition of type ' + str(tc))
+                t, ty = self.ex(st[2], env, self.rty)
+                if ty != self.rty:
+                    raise Unsupported(f'return type {ty} vs {self.rty}')
+                lines.append(f'if {c} then {t} else')
             else:
                 raise Unsupported('statement ' + k)
 
@@ -1472,6 +1666,31 @@ class Gen:
         lines.append(f'let {tmp} := (if {ctext} then (\n    {texts[0]})\n  else (\n    {texts[1]}))')
         for idx, s in enumerate(state):
             self.bind(s, f'{tmp}{proj(idx, len(state))}' if len(state) > 1 else tmp, env[s][1], env, lines)
+
+    def untyped(self, e, env):
+        try:
+            self.ex(e, env, None)
+        except Unsupported as ex:
+            return str(ex) == 'untyped literal'
+        return False
+
+    def infer_let_width(self, name, e, rest, env, lines, declared):
+        saved = (self.pn, self.nloop, list(self.aux), dict(self.cenv))
+        ok = []
+        for w in self.LIT_WIDTHS:
+            self.pn, self.nloop, self.aux, self.cenv = saved[0], saved[1], list(saved[2]), dict(saved[3])
+            env2, lines2 = dict(env), list(lines)
+            try:
+                t, ty = self.ex(e, env2, w)
+                self.bind(name, t, ty, env2, lines2)
+                self.run(rest, env2, lines2, set(declared) if declared is not None else None)
+                ok.append(w)
+            except Unsupported:
+                pass
+        self.pn, self.nloop, self.aux, self.cenv = saved[0], saved[1], list(saved[2]), saved[3]
+        if len(ok) != 1:
+            raise Unsupported('untyped literal')
+        return ok[0]
 
     def run_scoped(self, stmts, env, lines):
         """a loop body: its `let`s are local, its assignments to outer variables persist"""
@@ -1628,10 +1847,17 @@ class Gen:
         if (cond[0] == 'bin' and cond[1] == '<' and cond[2][0] == 'var' and cond[2][1] in self.cenv
                 and env.get(cond[2][1], (None, None))[1] == 'lit'):
             return self.emit_loop_up(cond, body, env, lines)
+        # (3b) the same with a `usize` variable as start value (`let mut i = shift_num; while i < LIMBS { .. }`)
+        if (cond[0] == 'bin' and cond[1] == '<' and cond[2][0] == 'var' and cond[2][1] not in self.cenv
+                and env.get(cond[2][1], (None, None))[1] == 'nat' and self.generic and cond[2][1] != self.generic):
+            return self.emit_loop_up(cond, body, env, lines)
         # (2) `while i > 0 { i -= 1; .. }`: structural recursion on i.toNat
         if not (cond[0] == 'bin' and cond[1] == '>' and cond[2][0] == 'var' and cond[3][0] == 'lit' and cond[3][1] == 0):
             raise Unsupported('loop form')
         i = cond[2][1]
+        if i in env and env[i][1] == 'nat':
+            # (4) the same loop with a `usize` counter (`let mut i = LIMBS;`): structural recursion on the counter itself
+            return self.emit_loop_down(i, body, env, lines)
         if i not in env or not isinstance(env[i][1], int):
             raise Unsupported('loop counter')
         ti, w = env[i]
@@ -1695,6 +1921,101 @@ class Gen:
             for idx, s in enumerate(state):
                 self.bind(s, f'{tmp}{proj(idx, len(state))}', styp[idx], env, lines)
 
+    def emit_loop_down(self, i, body, env, lines):
+        """`while i > 0 { i -= 1; body }` with a `Nat` counter (`let mut i = LIMBS;`, `let mut i = limbs.len();`, or the
+        counter left by a preceding `while i < BOUND` loop) as an auxiliary definition
+        `<fn>_loop<j> captured.. : Nat → state.. → state` by structural recursion on the counter: round `n + 1` runs the body
+        with `i = n` and recurses with `n`.
+        state = the outer variables the body assigns (arrays included), captured = the other outer variables it reads, both
+        in the order of their declaration in the function.  An untyped state variable (`let mut count = 0;`) gets the one
+        integer width that type-checks the body, as in the ascending form."""
+        if not body or not (body[0][0] == 'assign' and body[0][1] == i and body[0][2] == '-='
+                            and body[0][3][0] == 'lit' and body[0][3][1] == 1):
+            raise Unsupported('loop form: the body must start with the decrement of the counter')
+        rest = body[1:]
+        assigned, local = [], set()
+        for st in rest:
+            if st[0] in ('while', 'ifret'):
+                raise Unsupported('nested loop')
+            if st[0] == 'let':
+                local.add(st[1])
+            if st[0] == 'lettuple':
+                local.update(st[1])
+            if st[0] in ('assign', 'assign_idx') and st[1] not in assigned and st[1] not in local:
+                assigned.append(st[1])
+        if i in assigned or not assigned or any(s not in env for s in assigned):
+            raise Unsupported('loop state')
+        state = [v for v in env if v in assigned]
+        used = free_vars(rest, [])
+        if self.generic:
+            used.append(self.generic)      # the limb count is not a variable of the Rust text: always passed on
+        captured = [v for v in env if v in used and v not in state and v != i]
+        if any(env[v][1] == 'lit' for v in captured):
+            raise Unsupported('loop body reads an untyped counter')
+        untyped = [s for s in state if env[s][1] == 'lit']
+        if len(untyped) > 2:
+            raise Unsupported('too many untyped loop variables')
+        choices = [[]]
+        for s in untyped:
+            choices = [c + [w] for c in choices for w in self.LIT_WIDTHS]
+        saved = (self.pn, self.nloop, list(self.aux), dict(self.cenv))
+        found, err = [], Unsupported('loop state')
+        for ch in choices:
+            self.pn, self.nloop, self.aux, self.cenv = saved[0], saved[1], list(saved[2]), {}
+            styp = [ch[untyped.index(s)] if s in untyped else env[s][1] for s in state]
+            try:
+                found.append((styp, self.loop_down_text(i, rest, state, styp, captured, env), self.pn, self.nloop, self.aux))
+            except Unsupported as ex:
+                err = ex
+        self.pn, self.nloop, self.aux, self.cenv = saved[0], saved[1], list(saved[2]), saved[3]
+        if len(found) != 1:
+            raise (err if not found else Unsupported('ambiguous type of an untyped loop variable'))
+        styp, (text, aux, capa), self.pn, self.nloop, self.aux = found[0]
+        self.aux.append(text)
+        for s, ty in zip(state, styp):
+            if env[s][1] == 'lit':
+                env[s] = (f'{env[s][0]}#{ty}', ty)       # the literal initial value, now typed
+                self.cenv.pop(s, None)
+        callt = (f'({self.ns}.{aux}' + ''.join(f' {atom(env[v][0])}' for v in captured) + f' {atom(env[i][0])} '
+                 + ' '.join(atom(env[s][0]) for s in state) + ')')
+        if len(state) == 1:
+            self.bind(state[0], callt, styp[0], env, lines)
+        else:
+            self.pn += 1
+            tmp = f'p{self.pn}'
+            lines.append(f'let {tmp} := {callt}')
+            for idx, s in enumerate(state):
+                self.bind(s, f'{tmp}{proj(idx, len(state))}', styp[idx], env, lines)
+        env[i] = ('0', 'nat')
+
+    def loop_down_text(self, i, rest, state, styp, captured, env):
+        self.nloop += 1
+        aux = f'{self.fname}_loop{self.nloop}'
+        env2 = {}
+        for v in captured:
+            env2[v] = (self.fresh('self_' if v == 'self' else v, env2), env[v][1])
+        for s, ty in zip(state, styp):
+            env2[s] = (self.fresh(s, env2), ty)
+        nvar = self.fresh('n', env2)
+        env2[i] = (nvar, 'nat')           # in round `n + 1` the (already decremented) counter is `n`
+        outer, declared = set(env2), set()
+        pat = ', '.join(env2[s][0] for s in state)
+        tup = f'({pat})' if len(state) > 1 else pat
+        capb = ''.join(f' ({env2[v][0]} : {lean_ty(env2[v][1])})' for v in captured)
+        capa = ''.join(f' {env2[v][0]}' for v in captured)
+        lines2 = []
+        self.run(rest, env2, lines2, declared)
+        if declared & outer:
+            raise Unsupported('loop body shadows an outer variable')
+        if any(env2[s][1] != ty for s, ty in zip(state, styp)) or env2[i] != (nvar, 'nat'):
+            raise Unsupported('loop state changes type')
+        res = ' × '.join(lean_ty(t) for t in styp)
+        text = (f'@[gen_defs] def {aux}{capb} : Nat → ' + ' → '.join(lean_ty(t) for t in styp) + f' → {res}\n'
+                + f'  | 0, {pat} => {tup}\n'
+                + f'  | {nvar} + 1, {pat} =>\n    ' + '\n    '.join(lines2)
+                + f'\n    {self.ns}.{aux}{capa} {nvar} ' + ' '.join(env2[s][0] for s in state))
+        return text, aux, capa
+
     LIT_WIDTHS = (8, 32, 64, 128)
 
     def emit_loop_up(self, cond, body, env, lines):
@@ -1707,20 +2028,25 @@ class Gen:
         other outer variables it reads; both in the order of their declaration in the function.
         An untyped state variable (`let mut carry = 1;`) gets the one integer width that type-checks the body."""
         i = cond[2][1]
-        start = self.cenv[i]
+        start = self.cenv[i] if i in self.cenv else atom(env[i][0])       # a literal, or (3b) a `Nat` term
         if not body or not (body[-1][0] == 'assign' and body[-1][1] == i and body[-1][2] == '+='
                             and body[-1][3][0] == 'lit' and body[-1][3][1] >= 1):
             raise Unsupported('loop form: the body must end with the increment of the counter')
         step = body[-1][3][1]
         rest = body[:-1]
         assigned = []
+        local = set()
         for st in rest:
             if st[0] in ('while', 'if', 'assign_tuple'):
                 # nested statements: everything assigned at any depth, minus the body's own `let`s; an inner loop becomes an
                 # auxiliary definition of its own (emitted first), called from this loop's auxiliary definition
                 assigned = assigned_vars(rest)
                 break
-            if st[0] in ('assign', 'assign_idx') and st[1] not in assigned:
+            if st[0] == 'let':
+                local.add(st[1])
+            if st[0] == 'lettuple':
+                local.update(st[1])
+            if st[0] in ('assign', 'assign_idx') and st[1] not in assigned and st[1] not in local:
                 assigned.append(st[1])
         if i in assigned or not assigned or any(s not in env for s in assigned):
             raise Unsupported('loop state')
@@ -1728,6 +2054,8 @@ class Gen:
             raise Unsupported('loop bound changes inside the loop')
         state = [v for v in env if v in assigned]
         used = free_vars(rest, []) + free_vars(cond[3], [])
+        if self.generic:
+            used.append(self.generic)      # the limb count is not a variable of the Rust text: always passed on
         captured = [v for v in env if v in used and v not in state and v != i]
         if any(env[v][1] == 'lit' for v in captured):
             raise Unsupported('loop body reads an untyped counter')
@@ -1790,6 +2118,8 @@ class Gen:
         capb = ''.join(f' ({env2[v][0]} : {lean_ty(env2[v][1])})' for v in captured)
         capa = ''.join(f' {env2[v][0]}' for v in captured)
         bound, tb = self.ex(bound_e, env2, 'nat')
+        if isinstance(tb, int) and tb <= 64:
+            bound, tb = f'({bound}).toNat', 'nat'      # a word bound (`while i < shift_bits`, both `u32`): compared as `Nat`s
         if tb != 'nat':
             raise Unsupported('loop bound of type ' + str(tb))
         lines2 = []
@@ -1805,7 +2135,9 @@ class Gen:
                 + f'\n      {self.ns}.{aux}{capa} {nvar} ({ivar} + {step}) ' + ' '.join(env2[s][0] for s in state)
                 + f'\n    else {tup}')
         # the bound as seen from the caller
-        bound_out, _ = self.ex(bound_e, env, 'nat')
+        bound_out, tbo = self.ex(bound_e, env, 'nat')
+        if isinstance(tbo, int):
+            bound_out = f'({bound_out}).toNat'
         return text, aux, capa, bound_out
 
     def body(self, body, env, rty, outs=None):
@@ -1833,6 +2165,7 @@ class Gen:
             raise Unsupported('no final expression')
         lines = []
         env = dict(env)
+        self.rty = rty
         self.run(stmts, env, lines)
         if self.mutparams:
             # the new values of the `&mut` slice parameters, then the result
@@ -1913,12 +2246,14 @@ def impl_blocks(src, self_ty):
     return '\n'.join(out)
 
 
-def translate_file(path, ns, self_ty, want=None, private=False, ext=None):
+def translate_file(path, ns, self_ty, want=None, private=False, ext=None, cut=None):
     if isinstance(path, list):
         # a unit gathered from several files: the inherent impl blocks of `self_ty` in each of them
         src = '\n'.join((impl_blocks(open(f).read(), self_ty) if self_ty else open(f).read()) for f in path)
     else:
         src = open(path).read()
+        if cut and cut in src:
+            src = src[:src.index(cut)]      # only the free functions in front of the first `impl` block (unit option `cut`)
         if self_ty:
             m = re.search(r'impl\s+' + self_ty + r'\s*\{', src)
             if not m:
@@ -2070,6 +2405,21 @@ FILES = [
              desc='Montgomery reduction: the nested loops of montgomery_reduction_inner, and montgomery_reduction',
              want=['montgomery_reduction_inner', 'montgomery_reduction']),
     ]),
+    # the shift / bit-query layer (C05): word shifts and bit counts of a `Limb`, the limb loops of the `Uint` shifts
+    ('Shifts.lean', ['CB.Gen.Prim', None, 'set_option linter.unusedVariables false'], [
+        dict(key='limb_shift', rel=['src/limb/shl.rs', 'src/limb/shr.rs', 'src/limb/bits.rs', 'src/limb/bit_or.rs', 'src/limb/cmp.rs'],
+             ns='CB.Gen.Shifts.Limb', self_ty='Limb', desc='impl Limb: word shifts, bit counts, bitor, select',
+             want=['shl', 'shl1', 'shr', 'shr1', 'bits', 'leading_zeros', 'trailing_zeros', 'trailing_ones', 'bitor', 'select'], use=['prim']),
+        dict(key='uint_shift', rel=['src/uint/cmp.rs', 'src/uint/shl.rs', 'src/uint/shr.rs'],
+             ns='CB.Gen.Shifts.Uint', self_ty='Uint', generic='LIMBS', limb_more=['limb_shift'],
+             desc='impl<const LIMBS: usize> Uint<LIMBS>: one-bit, sub-limb and variable-time shifts over the limbs',
+             want=['select', 'overflowing_shl1', 'shl_limb', 'shr1', 'shr1_with_carry', 'overflowing_shl_vartime', 'overflowing_shr_vartime',
+                   'shl_vartime', 'shr_vartime', 'wrapping_shl_vartime', 'wrapping_shr_vartime',
+                   'overflowing_shl', 'overflowing_shr', 'shl', 'shr', 'wrapping_shl', 'wrapping_shr']),
+        dict(key='uint_bits', rel='src/uint/bits.rs', ns='CB.Gen.Shifts.Bits', self_ty=None, limb_more=['limb_shift'],
+             desc='the bit-query free functions over `&[Limb]` (a slice = the list of its limbs)',
+             want=['leading_zeros', 'trailing_zeros', 'trailing_ones', 'bit'], cut='\nimpl<'),
+    ]),
 ]
 
 AUX = re.compile(r'\w+_loop\d+$')
@@ -2139,8 +2489,9 @@ def main():
             ext['uint+'] = [reg[k] for k in u.get('more_uint', []) if k in reg]
             OPTS.clear()
             OPTS.update({k: u[k] for k in ('skip_asserts', 'free_generic', 'slices', 'nat_loops') if u.get(k)})
+            ext['uint_more'] = [reg[k] for k in u.get('uint_more', []) if k in reg]
             try:
-                order, out, failed, sigs = translate_file(path, ns, self_ty, u.get('want'), u.get('private', False), ext)
+                order, out, failed, sigs = translate_file(path, ns, self_ty, u.get('want'), u.get('private', False), ext, u.get('cut'))
             except (Unsupported, OSError) as ex:
                 order, out, failed, sigs = [], {}, {'*': str(ex)}, {}
             reg[u['key']] = (ns, sigs)
